@@ -293,14 +293,18 @@ func VerifH14() {
 	data := nondetBytes(n)
 	rows, clean, bounds := vRefCopy(data, nc)
 
-	// split points inside the tuple area, strictly increasing, no empty chunk
+	// split points inside the tuple area, non-decreasing: two equal cuts (or a
+	// cut at the very end) make an EMPTY CopyData message, which is a legal split
 	stream := vCat(vCopyHeader, data)
 	var cuts []int
-	last := len(vCopyHeader) - 1
+	last := len(vCopyHeader)
+	emptyChunk := false
 	for s := 0; s < SPLITS; s++ {
 		if nondetBool() {
-			c := last + 1 + vChoose(len(stream)-last-1)
-			vAssume(c > last && c < len(stream) && c >= len(vCopyHeader))
+			c := last + vChoose(len(stream)-last+1)
+			if (len(cuts) > 0 && c == last) || c == len(stream) {
+				emptyChunk = true
+			}
 			cuts = append(cuts, c)
 			last = c
 		}
@@ -376,6 +380,9 @@ func VerifH14() {
 	}
 	if len(cuts) > 0 && !midTuple && len(rows) >= 1 {
 		vReach("split-at-boundary")
+	}
+	if emptyChunk && !midTuple {
+		vReach("empty-chunk")
 	}
 	if n >= 2 && data[n-2] == 0xFF && data[n-1] == 0xFF && clean {
 		vReach("trailer")
